@@ -105,3 +105,18 @@ Section Trees.
     subst r0. exists cycles, total, sup, rest. repeat (split; [assumption|]). assumption.
   Qed.
 End Trees.
+
+(* the lookup premise is satisfiable: the weighted triangle with its single candidate *)
+Lemma tri_lookup_premise : lookup_premise tri_g tri_w tri_fi tri_cands tri_lookup.
+Proof.
+  intros k Sv HS. destruct (tri_facts Sv HS) as (-> & Hc & Hmin).
+  exists (fun i => if Nat.eqb i 0 then Some 9%Z else None). split.
+  - intros D HD HoD. exists 0, 9%Z. split; [cbn; lia|]. split; [reflexivity|apply Hmin; assumption].
+  - intros lo len Hle. cbn [tri_cands length] in Hle.
+    destruct len as [|len].
+    + exists None. split; [reflexivity|]. cbn [acc_ok]. intros i Hi. lia.
+    + assert (lo = 0 /\ len = 0) as (-> & ->) by lia.
+      exists (Some ([0; 1; 2], 9%Z)). split; [reflexivity|]. cbn [acc_ok snd]. split; [exact Hc|]. split.
+      * exists 0. split; [lia|reflexivity].
+      * intros i o Hi. assert (i = 0) as -> by lia. cbn. intros E; injection E as <-. lia.
+Qed.
